@@ -89,15 +89,6 @@ func (p *parser) parseBinOp(left MetricExpr, minPrecedence int) (MetricExpr, err
 			return nil, err
 		}
 
-		if op.IsLogic() {
-			if v, ok := left.(*LiteralExpr); ok {
-				return nil, errors.Errorf("unexpected left scalar %v in a logical operation %s", v.Value, op)
-			}
-			if v, ok := right.(*LiteralExpr); ok {
-				return nil, errors.Errorf("unexpected right scalar %v in a logical operation %s", v.Value, op)
-			}
-		}
-
 		for {
 			rightOp, ok := p.peekBinOp()
 			if !ok || rightOp.Precedence() < op.Precedence() {
@@ -112,6 +103,17 @@ func (p *parser) parseBinOp(left MetricExpr, minPrecedence int) (MetricExpr, err
 			right, err = p.parseBinOp(right, nextPrecedence)
 			if err != nil {
 				return nil, err
+			}
+		}
+
+		// Check operands after the right one is complete: it may begin with a scalar,
+		// like in "vector(1) and 2 * vector(3)".
+		if op.IsLogic() {
+			if v, ok := left.(*LiteralExpr); ok {
+				return nil, errors.Errorf("unexpected left scalar %v in a logical operation %s", v.Value, op)
+			}
+			if v, ok := right.(*LiteralExpr); ok {
+				return nil, errors.Errorf("unexpected right scalar %v in a logical operation %s", v.Value, op)
 			}
 		}
 
